@@ -180,8 +180,7 @@ PROPS = {
                     "WriteResponseBody, ProcessResponseBody) with the rules' decisions as parameters. net/http itself, ReadFrom "
                     "(= io.Copy through Write), Hijack/Push are not modelled.",
         "assumptions": ["the downstream ResponseWriter records WriteHeader/Write calls in order (httptest.ResponseRecorder)"],
-        "open_statements": ["C18_passthrough for buffered bodies (ProcessPartial / below the limit) is tied by correspondence only; "
-                            "the unbuffered case is proved (C18_passthrough_unbuffered)",
+        "open_statements": ["pass-through is proved for unbuffered responses (C18_passthrough_unbuffered) and for buffered bodies that stay below the limit (C18_passthrough_buffered); the ProcessPartial release path (a body reaching SecResponseBodyLimit) is tied by correspondence only",
                             "F-C18-1: a request-phase redirect or drop is answered with 200 (open finding)"],
     },
     "C06": {
